@@ -216,6 +216,60 @@ func (c *ctx) catalogue(n int, prevTs uint64) []mutant {
 			rebuild(m)
 			return true
 		})
+		// Witnesses are not covered by the transaction hash: the block hash and
+		// the Merkle root stay the same, only the bodies differ (the node may
+		// know the transaction from its pool with the right witness).
+		reWitness := func(m *block.Block, f func(w *transaction.Witness) bool) bool {
+			i := c.r.Intn(len(m.Transactions))
+			tx := m.Transactions[i]
+			fresh := transaction.New(tx.Script, tx.SystemFee)
+			fresh.Nonce, fresh.NetworkFee, fresh.ValidUntilBlock, fresh.Signers, fresh.Attributes = tx.Nonce, tx.NetworkFee, tx.ValidUntilBlock, tx.Signers, tx.Attributes
+			fresh.Scripts = make([]transaction.Witness, len(tx.Scripts))
+			for j := range fresh.Scripts {
+				fresh.Scripts[j] = transaction.Witness{VerificationScript: bytes.Clone(tx.Scripts[j].VerificationScript), InvocationScript: bytes.Clone(tx.Scripts[j].InvocationScript)}
+			}
+			if len(fresh.Scripts) == 0 || !f(&fresh.Scripts[c.r.Intn(len(fresh.Scripts))]) {
+				return false
+			}
+			m.Transactions[i] = fresh
+			return true
+		}
+		add("tx-verification-script-altered:same-signature", true, func(m *block.Block) bool {
+			return reWitness(m, func(w *transaction.Witness) bool {
+				if len(w.VerificationScript) == 0 {
+					return false
+				}
+				w.VerificationScript = append(w.VerificationScript, byte(opcode.NOP))
+				return true
+			})
+		})
+		add("tx-verification-script-of-another-key:same-signature", true, func(m *block.Block) bool {
+			return reWitness(m, func(w *transaction.Witness) bool {
+				if len(w.VerificationScript) < 35 {
+					return false
+				}
+				w.VerificationScript[10] ^= 0x40
+				return true
+			})
+		})
+		add("tx-signature-bit-flipped", true, func(m *block.Block) bool {
+			return reWitness(m, func(w *transaction.Witness) bool {
+				if len(w.InvocationScript) < 10 {
+					return false
+				}
+				w.InvocationScript[len(w.InvocationScript)/2] ^= 0x04
+				return true
+			})
+		})
+		add("tx-invocation-script-with-extra-push", true, func(m *block.Block) bool {
+			return reWitness(m, func(w *transaction.Witness) bool {
+				if len(w.InvocationScript) == 0 {
+					return false
+				}
+				w.InvocationScript = append(w.InvocationScript, byte(opcode.PUSH1))
+				return true
+			})
+		})
 		add("tx-witness-dropped:resigned", true, func(m *block.Block) bool {
 			tx := m.Transactions[0]
 			fresh := transaction.New(tx.Script, tx.SystemFee)
